@@ -26,9 +26,10 @@ def checkShape (stages : List Stage) (t0 : Int) (qs outs : List Int) : String :=
       prev := none
     | st :: _ =>
       let o := q - r.2
-      -- |d·(v − s) − o·(e − s)| < d
+      -- "within 1 of the exact value": |d·(v − s) − o·(e − s)| ≤ d. (The exact model is strictly inside —
+      -- `interp_within_one` —; the binary64 code can sit exactly 1 below when the exact value is an integer.)
       let lhs := st.d * (v - st.s) - o * (st.e - st.s)
-      if !(decide (-st.d < lhs) && decide (lhs < st.d)) then return s!"FAIL not-within-1-of-interpolation-at-{q}-got-{v}"
+      if !(decide (-st.d ≤ lhs) && decide (lhs ≤ st.d)) then return s!"FAIL not-within-1-of-interpolation-at-{q}-got-{v}"
       if v < min st.s st.e ∨ v > max st.s st.e then return s!"FAIL outside-stage-targets-at-{q}-got-{v}"
       match prev with
       | some (pst, pstart, po, pv) =>
@@ -105,7 +106,7 @@ def ramp (args impl : List String) : Option (String × String) := do
             for (q, v) in inside do
               let o := q - t0
               let lhs := dur * (v - s) - o * (e - s)
-              if !(decide (-dur < lhs) && decide (lhs < dur)) then return s!"FAIL not-within-1-of-interpolation-at-{q}-got-{v}"
+              if !(decide (-dur ≤ lhs) && decide (lhs ≤ dur)) then return s!"FAIL not-within-1-of-interpolation-at-{q}-got-{v}"
               if v < min s e ∨ v > max s e then return s!"FAIL outside-ramp-rates-at-{q}-got-{v}"
               match pv with
               | some p =>
